@@ -448,25 +448,36 @@ theorem chars_ne_nil {s : Str} (h : s.isEmpty = false) : chars s ≠ [] := by
   | nil => simp at h
   | cons a r => simp [chars]
 
+/-- the address of the peer, 127.0.0.1 when the server does not know it -/
+def clientAddr (c : Conn) : Str :=
+  match c.client with
+  | some a => a.1
+  | none => LOOPBACK
+
 /-- the client address both stacks append to the route: REMOTE_ADDR vs scope['client'][0], both defaulting to 127.0.0.1 -/
 theorem client_agree (c : Conn) (l : Lib) :
-    asgiClient (toScope c l) = .ok (match c.client with | some a => a.1 | none => LOOPBACK) := by
-  unfold asgiClient toScope
+    asgiClient (toScope c l) = .ok (clientAddr c) := by
+  unfold asgiClient toScope clientAddr
   cases c.client <;> cases l.clientNull <;> simp
 
 theorem wsgiRemoteAddr_eq (c : Conn) (l : Lib) :
-    wsgiRemoteAddr (toEnviron c l) = chars (match c.client with | some a => a.1 | none => LOOPBACK) := by
-  unfold wsgiRemoteAddr
+    wsgiRemoteAddr (toEnviron c l) = chars (clientAddr c) := by
+  unfold wsgiRemoteAddr clientAddr
   rw [env_REMOTE_ADDR]
   cases c.client <;> rfl
 
-theorem remote_ne_nil (c : Conn) (hc : wfClient c = true) : chars (match c.client with | some a => a.1 | none => LOOPBACK) ≠ [] := by
-  unfold wfClient at hc
+theorem chars_eq_nil_iff (s : Str) : chars s = [] ↔ s.isEmpty = true := by
+  cases s <;> simp [chars]
+
+theorem remote_ne_nil_iff (c : Conn) : chars (clientAddr c) ≠ [] ↔ wfClient c = true := by
+  unfold wfClient clientAddr
   cases hcl : c.client with
-  | none => simp only; decide
+  | none => simp only; constructor <;> intro _ <;> first | rfl | decide
   | some a =>
-    simp only [hcl] at hc ⊢
-    exact chars_ne_nil (by simpa using hc)
+    simp only [ne_eq, chars_eq_nil_iff]
+    cases a.1.isEmpty <;> simp
+
+theorem remote_ne_nil (c : Conn) (hc : wfClient c = true) : chars (clientAddr c) ≠ [] := (remote_ne_nil_iff c).2 hc
 
 /-- **access_route**: the route built from Forwarded / X-Forwarded-For / X-Real-IP (same header values on both stacks, `Fw.accessRoute`
     of C09) completed with REMOTE_ADDR (WSGI) / scope['client'][0] (ASGI) -/
@@ -504,6 +515,76 @@ theorem path_ne_nil (c : Conn) (l : Lib) (strip : Bool) : asgiPath (toScope c l)
   split
   · simp
   · rename_i h; intro e; simp [e] at h
+
+/-! ### the exact remaining condition for remote_addr / access_route -/
+
+/-- the header-derived part of the route, as falcon's ASGI request computes it -/
+def hdrRoute (c : Conn) (l : Lib) : List Hp.Str :=
+  let store := Wr.asgiStore (toScope c l).headers
+  Fw.routeBase ((dget store fwdLow).map chars) ((dget store xffLow).map chars) ((dget store xriLow).map chars)
+
+theorem finishRoute_agree_iff (route : List Hp.Str) (remote : Hp.Str) :
+    Fw.finishRoute true route remote = Fw.finishRoute false route remote ↔ (remote ≠ [] ∨ route ≠ []) := by
+  constructor
+  · intro h
+    cases remote with
+    | cons a r => exact Or.inl (by simp)
+    | nil =>
+      cases route with
+      | cons x xs => exact Or.inr (by simp)
+      | nil => exact absurd h (by decide)
+  · rintro (h | h)
+    · exact finishRoute_asgi_irrelevant route remote h
+    · unfold Fw.finishRoute
+      have : route.isEmpty = false := by cases route <;> simp_all
+      simp [this]
+
+/-- **the exact condition for access_route** (on the header domain of `Wr`): the two access routes are equal IF AND ONLY IF the client
+    address is non-empty or the forwarding headers contribute at least one entry (`[client] if client else []` is the only difference
+    left, and it shows only when both are empty) - in particular for every unknown client, reported by omission or as None -/
+theorem access_route_agree_iff (c : Conn) (l : Lib) (hreq : Wr.wfReq (toHReq c) = true) :
+    asgiAccessRoute (toScope c l) (Wr.asgiStore (toScope c l).headers) = .ok (wsgiAccessRoute (toEnviron c l))
+      ↔ (wfClient c = true ∨ hdrRoute c l ≠ []) := by
+  unfold asgiAccessRoute asgiAccessRouteOf wsgiAccessRoute hdrRoute
+  rw [client_agree c l, env_FORWARDED c l hreq, env_XFF c l hreq, env_XRI c l hreq, wsgiRemoteAddr_eq]
+  simp only [Fw.accessRoute, Out.ok.injEq]
+  rw [finishRoute_agree_iff, remote_ne_nil_iff]
+
+/-- … and the same condition is exact for remote_addr (with an empty client address and an empty header route `route[-1]` is an IndexError) -/
+theorem remote_addr_agree_iff (c : Conn) (l : Lib) (hreq : Wr.wfReq (toHReq c) = true) :
+    asgiRemoteAddr (toScope c l) (Wr.asgiStore (toScope c l).headers) = .ok (wsgiRemoteAddr (toEnviron c l))
+      ↔ (wfClient c = true ∨ hdrRoute c l ≠ []) := by
+  constructor
+  · intro h
+    rcases Classical.em (wfClient c = true ∨ hdrRoute c l ≠ []) with hc | hc
+    · exact hc
+    · exfalso
+      have h1 : wfClient c = false := by cases hw : wfClient c <;> simp_all
+      have h2 : hdrRoute c l = [] := by
+        cases hr : hdrRoute c l with
+        | nil => rfl
+        | cons x xs => exact absurd (Or.inr (by simp [hr])) hc
+      have hrem : chars (clientAddr c) = [] := by
+        cases hx : chars (clientAddr c) with
+        | nil => rfl
+        | cons x xs =>
+          have := (remote_ne_nil_iff c).1 (by rw [hx]; simp)
+          rw [h1] at this; exact absurd this (by simp)
+      unfold asgiRemoteAddr asgiRemoteAddrOf asgiAccessRouteOf at h
+      unfold hdrRoute at h2
+      rw [client_agree c l] at h
+      simp only [Fw.accessRoute] at h
+      simp only at h2
+      rw [h2, hrem] at h
+      have e : Fw.finishRoute true ([] : List Hp.Str) [] = [] := by decide
+      rw [e] at h
+      simp at h
+  · intro hc
+    have h := (access_route_agree_iff c l hreq).2 hc
+    unfold asgiAccessRoute at h
+    unfold asgiRemoteAddr asgiRemoteAddrOf
+    rw [h]
+    simp only [wsgiAccessRoute, Fw.accessRoute, getLast_finishRoute]
 
 /-! ### the whole view -/
 /-- **WSGI and ASGI describe the same request line and connection.**  For every wire request of the domain `wfConn`
